@@ -394,13 +394,18 @@ func vScenarioC18(rc *runCtx) {
 	}
 	lead := time.Duration(float64(T) * []float64{0.3, 0.5, 0.7}[tp.Draw("c18.lead", 3)])
 	extra := time.Duration(float64(T) * []float64{0, 0.1, 0.3}[tp.Draw("c18.extra", 3)])
-	var stallFor time.Duration
+	var stallFor, stallArmedAt time.Duration
 	if hiccup {
 		df := &verifsim.DiskFaults{}
 		hook := func(call int, f *os.File) {
 			if stallFor > 0 && verifsim.CurProc() == x.server {
 				sl := stallFor
 				stallFor = 0
+				if w.Now()-stallArmedAt > 50*time.Millisecond {
+					// the server did not touch its disk when the moment came: a slow operation that begins later
+					// would not be covered by the pause any more
+					return
+				}
 				rc.fault("server-disk-slow-before-pause")
 				verifsim.Sleep(sl)
 			}
@@ -419,6 +424,7 @@ func vScenarioC18(rc *runCtx) {
 			x.paused = true
 			if hiccup {
 				stallFor = lead + d + extra + 200*time.Millisecond
+				stallArmedAt = w.Now()
 			}
 			w.Go("user", x.client, func() {
 				if hiccup {
@@ -428,7 +434,7 @@ func vScenarioC18(rc *runCtx) {
 					return
 				}
 				x.kbd.Write([]byte{0x03})
-				from := w.Now() + 150*time.Millisecond
+				from := w.Now() + 20*time.Millisecond
 				verifsim.Sleep(d)
 				x.typeKeys("jj", 20*time.Millisecond)
 				to := w.Now()
